@@ -707,6 +707,7 @@ func gen(c *core.Ctx) error {
 		c.Note(fmt.Sprintf("oracle failures %s: %d", k, fails[k]))
 	}
 	genResumed(c, bt, emitResumed)
+	genHonestPairs(c, bt)
 	c.Rule("on every successful handshake against a scripted peer: Authentication=REQUIRED => an own-listed method ran to success as seen by the peer; Encryption/Integrity=REQUIRED => Stream.IsEncrypted and the next bytes written are not cleartext on the wire; reported Encryption == IsEncrypted == not-cleartext; reported Authentication == an exchange succeeded, reported NegotiatedAuth == that method; and (error, reported fields, IsEncrypted, exchanges seen) == Model/Handshake.v")
 	c.Exhaustive(false)
 	c.Assume("scripted peers serve CLAIMTOBE and the PASSWORD stub only; a peer that selects another method goes away")
@@ -726,6 +727,12 @@ func replay(raw json.RawMessage) error {
 			}
 		}
 		return nil
+	}
+	var hk struct {
+		Kind string `json:"kind"`
+	}
+	if json.Unmarshal(raw, &hk) == nil && hk.Kind == "honest" {
+		return nil // honest pairs carry no oracle of their own here (C10 judges them); model comparison only
 	}
 	var rs resSpec
 	if json.Unmarshal(raw, &rs) == nil && (rs.Kind == "rescli" || rs.Kind == "ressrv") {
